@@ -78,6 +78,23 @@ def make_volume_case(rng, n_targets, mb):
 
 LONG_NAME = "a/" + "\u65e5\u672c\u8a9e\u306e\u3068\u3066\u3082\u9577\u3044\u30bf\u30fc\u30b2\u30c3\u30c8\u540d\u524d\u3067\u3054\u3056\u3044\u307e\u3059\u3088\u308d\u3057\u304f\u306d\u3048"   # 83 bytes, multi-byte throughout
 
+def make_cancel_case(rng, n_chatty):
+    """One group: a task that fails after ~0.7 s and chatty siblings printing a line every 10 ms.  The failure cancels the group
+    while every sibling holds lines read since its last 500 ms flush and all of them flush at once onto the shared connection."""
+    targets = [{"path": "boom"}] + [{"path": "chat%02d" % i} for i in range(n_chatty)]
+    script, written = {"*": {"quiet": True}}, {}
+    script["build|boom"] = {"chunks": [[1, b"boom: about to fail\n".hex(), rng.choice([650, 730, 810])]], "exit": 1}
+    written["boom"] = {"stdout": [(b"boom: about to fail\n", 0)], "stderr": []}
+    for t in targets[1:]:
+        tp = t["path"].encode(); so, se, merged = [], [], []
+        for i in range(220):
+            o = b"%s line %03d\n" % (tp, i); merged.append([1, o.hex(), 10]); so.append((o, 10))
+            if i % 7 == 0:
+                e = b"%s err %03d\n" % (tp, i); merged.append([2, e.hex(), 0]); se.append((e, 0))
+        script["build|%s" % t["path"]] = {"chunks": merged}
+        written[t["path"]] = {"stdout": so, "stderr": se}
+    return {"targets": targets}, script, written
+
 def make_case(rng, n_targets, kind, layers=1, long_last=False):
     targets = [{"path": "t%02d" % i} for i in range(n_targets)]
     if long_last: targets[-1]["path"] = LONG_NAME
@@ -131,6 +148,41 @@ def parse_blocks(data):
     if key is not None and data and not data.endswith(b"\n"): blocks[key] = blocks[key][:-1]
     elif key is not None: blocks[key] = blocks[key][:-1] if blocks[key].endswith(b"\n") and data.endswith(b"\n") else blocks[key]
     return blocks, junk
+
+def c08_twice_case(ctx, rng, first_longer=True):
+    """The same command listed twice in one invocation: both executions write the same two log files one after the other.  Whatever is
+    kept, each stored log must be a well-formed archive holding the complete output of one of the executions (never a mixture, never an
+    undecodable file), and `log show` must work."""
+    cfg = {"targets": [{"path": "t00"}, {"path": "t01"}]}
+    big = b"".join(b"first execution line %05d %s\n" % (i, rng.randbytes(24).hex().encode()) for i in range(3000))
+    small = b"second execution: one short line\n"
+    order = (big, small) if first_longer else (small, big)
+    script = {"*": {"quiet": True}}
+    for t in cfg["targets"]:
+        script["build|%s" % t["path"]] = {"by_visit": [{"chunks": [[1, order[0].hex(), 0], [2, order[0][:2000].hex(), 0]]}, {"chunks": [[1, order[1].hex(), 0], [2, order[1][:2000].hex(), 0]]}]}
+    rr = runscen.RunRepo(ctx, cfg, commands=["build"])
+    try:
+        rr.script = script; rr.write_script()
+        rc, out, err, raw = rr.run("-c", "build", "build", timeout=180)
+        case = {"twice": True, "first_is_longer": order[0] is big}
+        ctx.count("same_command_twice")
+        if out is None:
+            ctx.record(case, True, False, False, True, detail={"what": "run failed", "rc": rc, "err": err}); return
+        try:
+            logs = stored_logs(rr, out); decode_err = None
+        except Exception as e:
+            logs = {}; decode_err = str(e)[:200]
+        bad = []
+        for t in cfg["targets"]:
+            for sname, cands in (("stdout", (order[0], order[1])), ("stderr", (order[0][:2000], order[1][:2000]))):
+                got = logs.get(os.path.join("build", runscen.thash(t["path"]), sname + ".zst"))
+                if got is None or got not in cands: bad.append({"target": t["path"], "stream": sname, "stored": None if got is None else len(got), "executions_wrote": [len(c) for c in cands]})
+        rcl, _, _, rawl = vlib.monorail(rr.repo, "log", "show", "--stdout", "--stderr")
+        ok = not bad and decode_err is None and rcl == 0
+        ctx.record(case, True, ok, ok, True, sample={"invocation": "run -c build build", "first_is_longer": order[0] is big, "log_show_rc": rcl},
+                   detail={"stored_problems": bad[:4], "decode_error": decode_err, "log_show_rc": rcl, "log_show_err": rawl.stderr.decode("utf-8", "replace")[-200:]})
+    finally:
+        rr.close()
 
 def c08_case(ctx, rng, n_targets, kind, listener="none"):
     """listener: "none" | "alive" (a `log tail` attached and read for the whole run) | a float (attached, then killed that many
@@ -193,8 +245,13 @@ def outcome(rr, rc, out):
 
 def c15_case(ctx, rng, n_targets, kill_at, flt):
     long_last = "@long" in flt            # a listener filtering on a long, non-ASCII target name
-    flt = [LONG_NAME if x == "@long" else x for x in flt]
-    cfg, script, written = make_case(rng, n_targets, "text", layers=2, long_last=long_last)
+    raw_tail = "@tail" in flt             # output that is not plain lines: binary bytes, and an unterminated tail followed by a pause
+    flt = [LONG_NAME if x == "@long" else x for x in flt if x != "@tail"]
+    cfg, script, written = make_case(rng, n_targets, "mixed" if raw_tail else "text", layers=2, long_last=long_last)
+    if raw_tail:
+        for t in cfg["targets"][:2]:
+            script["build|%s" % t["path"]]["chunks"] += [[1, b"working...".hex(), 700], [2, b"still going".hex(), 650]]
+            written[t["path"]]["stdout"].append((b"working...", 700)); written[t["path"]]["stderr"].append((b"still going", 650))
     if rng.random() < 0.3: script["build|%s" % cfg["targets"][-1]["path"]]["exit"] = 3
     rr = runscen.RunRepo(ctx, cfg, commands=["build"])
     try:
@@ -262,10 +319,11 @@ def c15_case(ctx, rng, n_targets, kill_at, flt):
     finally:
         rr.close()
 
-def c20_case(ctx, rng, n_targets, flt, crlf=False, burst=0, paused=0, extra_cmds=(), long_line=0):
+def c20_case(ctx, rng, n_targets, flt, crlf=False, burst=0, paused=0, extra_cmds=(), long_line=0, cancel=False):
     """paused > 0: whoever reads the listener's output (a pager, a slow pipe, a stopped job) does not read for that many seconds
     while the run produces far more than the pipe and socket buffers hold; afterwards it reads everything."""
-    if paused: cfg, script, written = make_volume_case(rng, n_targets, 2)
+    if cancel: cfg, script, written = make_cancel_case(rng, n_targets)
+    elif paused: cfg, script, written = make_volume_case(rng, n_targets, 2)
     else: cfg, script, written = make_burst_case(rng, n_targets, burst) if burst else make_case(rng, n_targets, "text")
     if long_line:
         # one newline-terminated line of several megabytes in the middle of a task's output (larger than any single write a
@@ -304,7 +362,7 @@ def c20_case(ctx, rng, n_targets, flt, crlf=False, burst=0, paused=0, extra_cmds
         except subprocess.TimeoutExpired: lst.kill()
         th.join(timeout=5)
         lo = bytes(got)
-        case = {"targets": n_targets, "filters": flt, "crlf": crlf, "burst": burst, "paused": paused, "extra_cmds": list(extra_cmds), "long_line": long_line, "script": script if not (burst or paused or long_line) else "generated"}
+        case = {"targets": n_targets, "filters": flt, "crlf": crlf, "burst": burst, "paused": paused, "extra_cmds": list(extra_cmds), "long_line": long_line, "cancel": cancel, "script": script if not (burst or paused or long_line or cancel) else "generated"}
         if out is None:
             ctx.record(case, True, False, False, True, detail={"what": "run failed", "rc": rc, "err": err}); return
         logs = stored_logs(rr, out)
@@ -354,12 +412,13 @@ def run(ctx, scale, focus):
     if focus == "C08":
         plan = [(4, "mixed"), (24, "text"), (8, "mixed"), (2, "mixed"), (12, "mixed"), (2, "volume")] if ctx.quick() else [(n, k) for n in (1, 2, 4, 8, 16, 24) for k in ("text", "mixed")] * 6 + [(3, "volume"), (5, "volume")] * 3
         for n, kind in plan * scale: c08_case(ctx, random.Random(rng.getrandbits(32)), n, kind)
+        for i in range((2 if ctx.quick() else 8) * scale): c08_twice_case(ctx, random.Random(rng.getrandbits(32)), first_longer=(i % 2 == 0))
         # the same with a `log tail` listener attached: alive throughout, or dying while the tasks are still writing
         lplan = [(4, "mixed", "alive"), (6, "text", 0.3), (4, "mixed", 0.8)] if ctx.quick() else [(n, k, l) for n in (2, 6, 12) for k in ("text", "mixed") for l in ("alive", 0.2, 0.6, 1.2)]
         for n, kind, l in lplan * scale: c08_case(ctx, random.Random(rng.getrandbits(32)), n, kind, l)
     elif focus == "C15":
         plan = [("never", ["--stdout", "--stderr"]), (0.25, ["--stdout", "--stderr"]), ("before", ["--stdout"]), (0.7, ["--stderr", "-t", "t00"]), (0.05, ["--stdout", "--stderr"]),
-                ("handshake", ["--stdout", "--stderr"]), ("never", ["--stdout", "--stderr", "-t", "@long"])]
+                ("handshake", ["--stdout", "--stderr"]), ("never", ["--stdout", "--stderr", "-t", "@long"]), ("never", ["--stdout", "--stderr", "@tail"])]
         if not ctx.quick(): plan = plan * 10 + [(0.25, ["--stdout", "-t", "@long", "t00", "t01"]), ("never", ["--stderr", "-t"] + ["t%02d" % i for i in range(6)] + ["-c", "build", "lint", "test", "a-very-long-command-name-that-nobody-runs"])] * 3
         for kill_at, flt in plan * scale: c15_case(ctx, random.Random(rng.getrandbits(32)), rng.choice([4, 6]), kill_at, flt)
     else:
@@ -368,9 +427,13 @@ def run(ctx, scale, focus):
         if not ctx.quick(): plan = plan * 10
         for n, flt, crlf, burst in plan * scale: c20_case(ctx, random.Random(rng.getrandbits(32)), n, flt, crlf, burst)
         # several commands in one run, the listener admitting only some of them (excluded ones come first, last, or in between)
-        cplan = [(4, ["--stdout", "--stderr", "-c", "build"], ("a_prep", "z_post")), (3, ["--stdout", "-c", "z_post", "build"], ("a_prep", "z_post"))]
+        cplan = [(4, ["--stdout", "--stderr", "-c", "build"], ("a_prep", "z_post")), (3, ["--stdout", "-c", "z_post", "build"], ("a_prep", "z_post")),
+                 (4, ["--stdout", "--stderr", "-t", "t00", "t02", "-c", "z_post"], ("a_prep", "z_post"))]      # target AND command filters together
         if not ctx.quick(): cplan = cplan * 5 + [(4, ["--stdout", "--stderr", "-c", "a_prep"], ("a_prep", "z_post")), (4, ["--stderr", "-c", "z_post", "-t", "t00", "t01"], ("a_prep", "z_post"))] * 3
         for n, flt, extra in cplan * scale: c20_case(ctx, random.Random(rng.getrandbits(32)), n, flt, False, 0, 0, extra)
+        # a failing task cancels its group while the siblings are in the middle of their output
+        for n in ([10, 14] if ctx.quick() else [4, 10, 14, 20] * 3) * scale:
+            c20_case(ctx, random.Random(rng.getrandbits(32)), n, ["--stdout", "--stderr"], cancel=True)
         for n, size in ([(3, 3000000)] if ctx.quick() else [(3, 3000000), (2, 2097153), (4, 5000000)]) * scale:
             c20_case(ctx, random.Random(rng.getrandbits(32)), n, ["--stdout", "--stderr"], False, 0, 0, (), long_line=size)
         for n, secs in ([(6, 3)] if ctx.quick() else [(6, 3), (8, 5), (4, 2)]) * scale:
@@ -379,7 +442,8 @@ def run(ctx, scale, focus):
 def replay(ctx, case, focus):
     c = case.get("case", case)
     rng = random.Random(ctx.seed)
-    if focus == "C08": c08_case(ctx, rng, c.get("targets", 4), c.get("kind", "mixed"), c.get("listener", "none"))
+    if focus == "C08" and c.get("twice"): c08_twice_case(ctx, rng, c.get("first_is_longer", True))
+    elif focus == "C08": c08_case(ctx, rng, c.get("targets", 4), c.get("kind", "mixed"), c.get("listener", "none"))
     elif focus == "C15": c15_case(ctx, rng, c.get("targets", 4), c.get("listener_killed", 0.25), c.get("filters", ["--stdout", "--stderr"]))
-    else: c20_case(ctx, rng, c.get("targets", 4), c.get("filters", ["--stdout", "--stderr"]), c.get("crlf", False), c.get("burst", 0), c.get("paused", 0), tuple(c.get("extra_cmds", ())), c.get("long_line", 0))
+    else: c20_case(ctx, rng, c.get("targets", 4), c.get("filters", ["--stdout", "--stderr"]), c.get("crlf", False), c.get("burst", 0), c.get("paused", 0), tuple(c.get("extra_cmds", ())), c.get("long_line", 0), c.get("cancel", False))
     return {"spec_failures": [d for _, d in ctx.spec_failures][:3], "disagreements": [d for _, d in ctx.tie_breaks][:3]}
